@@ -2001,6 +2001,13 @@ handle_include_directive(const string &args, const YYLTYPE &loc) {
       return;
     }
 
+    // The same limit as gcc.  An unguarded include cycle would otherwise
+    // recurse until the process runs out of file descriptors.
+    if (get_file_depth() >= 200) {
+      error("#include nested too deeply: " + filename.get_fullpath(), loc);
+      return;
+    }
+
     if (!push_file(file)) {
       warning("Unable to read " + filename.get_fullpath(), loc);
     }
